@@ -330,6 +330,7 @@ func vC08RunFlvRead(c vSx) (obs vSx, fails []vC08Fail, nontrivial bool, failK in
 		wire = append(wire, vC08RefTagRest(t)...)
 		ends = append(ends, len(wire))
 	}
+	vC08LastWire = len(wire)
 	ks, kok := vC08Ks(c.l[8], len(wire))
 	if !kok {
 		return bad, nil, false, -1
@@ -487,6 +488,7 @@ func vC08RunFlvWrite(c vSx) (obs vSx, fails []vC08Fail, nontrivial bool, failK i
 		wire = append(wire, vC08RefTagHeader(t)...)
 		wire = append(wire, vC08RefTagRest(t)...)
 	}
+	vC08LastWire = len(wire)
 	is, iok := vC08Ks(c.l[7], len(calls))
 	if !iok {
 		return bad, nil, false, -1
@@ -647,16 +649,42 @@ func vC08GenSegs(r *vRng) vSx {
 }
 
 
-// number of offsets a sweep over a wire of wl bytes may use: the cost of one run is ~ wl
-// (implementation and model re-read the delivered prefix), so a sweep is given a byte budget
-func vC08Budget(k *vKit, wl int, scale int) int {
-	b := 200000
+// Cost control.  One run (one cut offset / fault index) costs about wl byte-steps in the
+// implementation and in the model, which re-read the delivered prefix.  Every case gets at most
+// vC08CaseCap byte-steps, and the whole entry at most vC08EntryCap; once that is spent the
+// remaining cases are generated with the minimum number of offsets.
+var vC08Spent int
+var vC08LastWire int // wire length of the case just run
+
+func vC08CaseCap(k *vKit) int {
 	if k.thorough() {
-		b = 1500000
+		return 1500000
+	}
+	return 200000
+}
+
+func vC08EntryCap(k *vKit) int {
+	if k.thorough() {
+		return 120000000
+	}
+	return 20000000
+}
+
+// number of offsets a sweep over a wire of wl bytes may use
+func vC08Budget(k *vKit, wl int, scale int) int {
+	b := vC08CaseCap(k)
+	if vC08Spent > vC08EntryCap(k) {
+		b = 0
 	}
 	n := b * scale / (wl + 1)
-	if n < 8 {
-		n = 8
+	if n < 6 {
+		n = 6
+	}
+	if n*(wl+1) > 2000000 && wl+1 < 2000000 {
+		n = 2000000 / (wl + 1) // never more than 2*10^6 byte-steps in one case
+		if n < 1 {
+			n = 1
+		}
 	}
 	return n
 }
@@ -730,6 +758,7 @@ func TestVerifC08Flv(t *testing.T) {
 		}
 		idx := k.record(c, obs, nt)
 		if obs.isList() && len(obs.l) > 1 {
+			vC08Spent += (len(obs.l) - 1) * (vC08LastWire + 1)
 			if write {
 				k.hist["flv"]["write-runs"] += len(obs.l) - 1
 			} else {
@@ -765,7 +794,7 @@ func TestVerifC08Flv(t *testing.T) {
 	for i := 0; i < nSmall; i++ {
 		hv, ha, tags, wl, _ := vC08GenTags(k.rnd, true)
 		for j := 0; j < 3; j++ {
-			runOne(vL(vZ(2), vZ(0), vI(hv), vI(ha), vLs(tags), vI(vC08TermRead(k.rnd)), vI(k.rnd.intn(4)), vC08GenSegs(k.rnd), vL(vZ(0), vZ(0), vI(wl))), false)
+			runOne(vL(vZ(2), vZ(0), vI(hv), vI(ha), vLs(tags), vI(vC08TermRead(k.rnd)), vI(k.rnd.intn(4)), vC08GenSegs(k.rnd), vC08PickKs(k, wl, []int{0, 13, wl}, 1)), false)
 		}
 	}
 	// larger files: every offset when the byte budget allows, else item boundaries +-2 and random offsets
